@@ -173,7 +173,7 @@ def run(res, tier):
     # ---------------------------------------------------------------- R-FRESH on the inverse pipeline
     from .. import pipeline, r_fresh
     res.rule("R-FRESH", "no stage of the inverse pipeline reads a derived field whose producer is more conditional than the reader", floor=10)
-    FI = pipeline.Flattener(ui)
+    FI = pipeline.Flattener(ui, stop=pipeline.STAGES[ui.tu])
     for sk in ("mjSTAGE_NONE",):
         evs = FI.flatten(ui.funcs["mj_inverseSkip"], {"skipstage": enum[sk], "skipsensor": 0})
         r_fresh.check(res, "R-FRESH", f"mj_inverseSkip({sk})", evs, INV)
